@@ -303,7 +303,7 @@ class Sim:
             band = BAND_PDOM
         d = O.decide(jd, *band)
         res = bool(res)
-        tagk = ("rect" if rect else "ell") + (":fallback" if faulted else "")
+        tagk = ("rect" if rect else "ell") + (f":fallback[{self.ctx.last_status}]" if faulted else "")
         if d is None:
             self.undecided[prop] += 1
             return
